@@ -95,6 +95,19 @@ theorem hasRoom_storeList (h : Heap) (b n b' start : Nat) (vs : List Int) (hr : 
   | nil => exact hr
   | cons v vs ih => exact ih _ _ (hasRoom_store h b n b' start v hr)
 
+theorem cell_store_other (hp : Heap) (b i : Nat) (x : Int) (blk j : Nat) (hne : blk ≠ b) :
+    cell (store hp b i x) blk j = cell hp blk j := by
+  unfold store
+  split
+  · simp [cell, List.getElem?_set, hne.symm]
+  · rfl
+
+theorem cell_storeList_other (hp : Heap) (b st : Nat) (vs : List Int) (blk j : Nat) (hne : blk ≠ b) :
+    cell (storeList hp b st vs) blk j = cell hp blk j := by
+  induction vs generalizing hp st with
+  | nil => rfl
+  | cons v vs ih => simp only [storeList]; rw [ih, cell_store_other _ _ _ _ _ _ hne]
+
 /-! ## well-formed views -/
 
 /-- the window `[off, off+cap)` lies inside an existing block and `len ≤ cap` -/
